@@ -89,10 +89,10 @@ type Outcome struct {
 	NoCompress bool
 }
 
-func Rows() Outcome            { return Outcome{Name: "Rows", Rows: true} }
-func Void() Outcome            { return Outcome{Name: "Void", Msg: &message.VoidResult{}} }
-func Silence() Outcome         { return Outcome{Name: "Silence"} }
-func DropBefore() Outcome      { return Outcome{Name: "DropBefore", Drop: 1} }
+func Rows() Outcome                            { return Outcome{Name: "Rows", Rows: true} }
+func Void() Outcome                            { return Outcome{Name: "Void", Msg: &message.VoidResult{}} }
+func Silence() Outcome                         { return Outcome{Name: "Silence"} }
+func DropBefore() Outcome                      { return Outcome{Name: "DropBefore", Drop: 1} }
 func Err(name string, m message.Error) Outcome { return Outcome{Name: name, Msg: m} }
 
 type Host struct {
@@ -162,10 +162,10 @@ type Cluster struct {
 	// optional overrides for hostile control-connection answers: return nil to answer normally
 	SystemOverride func(c *Conn, table string) message.Message
 	// optional interceptor for every frame (after logging); return true if it handled the frame
-	Intercept func(c *Conn, hdr *frame.Header, rawBody []byte) bool
-	OptionsMute int32 // when 1, OPTIONS on muted connections are swallowed (always the case); kept for clarity
-	optionsSeen sync.Map // conn id → *int32 count of OPTIONS received
-	ever        sync.Map // peer address → *Conn, for every connection ever accepted
+	Intercept   func(c *Conn, hdr *frame.Header, rawBody []byte) bool
+	OptionsMute int32                    // when 1, OPTIONS on muted connections are swallowed (always the case); kept for clarity
+	optionsSeen sync.Map                 // conn id → *int32 count of OPTIONS received
+	ever        sync.Map                 // peer address → *Conn, for every connection ever accepted
 	slowUse     map[string]time.Duration // canonical keyspace → delay before USE is answered
 }
 
@@ -346,7 +346,12 @@ func (h *Host) Forget() { h.mu.Lock(); h.prepared = map[string]string{}; h.mu.Un
 // Learn makes the host know a prepared id without a PREPARE having reached it.
 func (h *Host) Learn(idHex, query string) { h.mu.Lock(); h.prepared[idHex] = query; h.mu.Unlock() }
 
-func (h *Host) Knows(idHex string) bool { h.mu.Lock(); defer h.mu.Unlock(); _, ok := h.prepared[idHex]; return ok }
+func (h *Host) Knows(idHex string) bool {
+	h.mu.Lock()
+	defer h.mu.Unlock()
+	_, ok := h.prepared[idHex]
+	return ok
+}
 
 func (h *Host) Conns() []*Conn {
 	h.mu.Lock()
@@ -911,12 +916,16 @@ var echoColumns = []*message.ColumnMetadata{
 	{Keyspace: "ks", Table: "t", Name: "arrival", Type: datatype.Int},
 }
 
-func i32(v int) []byte { b := make([]byte, 4); binary.BigEndian.PutUint32(b, uint32(int32(v))); return b }
+func i32(v int) []byte {
+	b := make([]byte, 4)
+	binary.BigEndian.PutUint32(b, uint32(int32(v)))
+	return b
+}
 
 func (x *Conn) echoRows(tok string, n int) *message.RowsResult {
 	return &message.RowsResult{
 		Metadata: &message.RowsMetadata{ColumnCount: int32(len(echoColumns)), Columns: echoColumns},
-		Data: []message.Row{{[]byte(tok), i32(x.Host.Idx), i32(x.ID), []byte(x.Ks()), i32(int(x.Ver())), []byte(x.Comp()), i32(n)}},
+		Data:     []message.Row{{[]byte(tok), i32(x.Host.Idx), i32(x.ID), []byte(x.Ks()), i32(int(x.Ver())), []byte(x.Comp()), i32(n)}},
 	}
 }
 
